@@ -115,7 +115,7 @@ fn main() {
                 }
                 // the script ends with: everybody closed, then limit+1 fresh connections
                 if last_served.len() != limit.min(open.len()) {
-                    r.violations.push((prog, vec!["C17"], r.ops.len() + ops.len() - 1, format!("after all earlier connections ended, {} of {} fresh connections are served under a limit of {} (slots lost or over-released)", last_served.len(), open.len(), limit)));
+                    r.violations.push((prog, vec!["C17", "C18"], r.ops.len() + ops.len() - 1, format!("after all earlier connections ended, {} of {} fresh connections are served under a limit of {} (slots lost or over-released)", last_served.len(), open.len(), limit)));
                 }
                 for (o, x) in ops.iter().zip(outs.iter()) {
                     if let Some(h) = o.split(' ').nth(2) { if o.starts_with("end ") { *ends.entry(h.to_string()).or_insert(0) += 1; } }
